@@ -250,6 +250,15 @@ fn run_op(op: &str, a: &[Value]) -> Result<Out<Value>, String> {
             let (g, p, q, n) = (zarg(a, 0)?, zarg(a, 1)?, zarg(a, 2)?, zarg(a, 3)?);
             guard(|| Ok::<_, ClError>(json!(g.generates_semiprime_subgroup(&p, &q, &n)?)))
         }
+        // ---- primality (probabilistic; not part of the `bn` stream, used by probes and replays)
+        "is_prime" => {
+            let x = zarg(a, 0)?;
+            guard(|| Ok::<_, ClError>(json!(x.is_prime()?)))
+        }
+        "is_safe_prime" => {
+            let x = zarg(a, 0)?;
+            guard(|| Ok::<_, ClError>(json!(x.is_safe_prime()?)))
+        }
         _ => return Err(format!("unknown bn op {}", op)),
     })
 }
@@ -282,10 +291,734 @@ pub fn exec(op: &str, inp: &Value) -> Option<Result<Value, String>> {
     Some(Ok(json!({"backend": backend(), "impl": apply(o, args)})))
 }
 
+// ------------------------------------------------------------------ operands (no big-number library on the generator side)
+
+/// decimal text of a big-endian magnitude
+pub fn dec_from_be(bytes: &[u8]) -> String {
+    // base 2^32 limbs, little-endian
+    let mut limbs: Vec<u32> = Vec::new();
+    let mut i = bytes.len();
+    while i > 0 {
+        let lo = i.saturating_sub(4);
+        let mut w = 0u32;
+        for b in &bytes[lo..i] {
+            w = (w << 8) | *b as u32;
+        }
+        limbs.push(w);
+        i = lo;
+    }
+    while limbs.last() == Some(&0) {
+        limbs.pop();
+    }
+    if limbs.is_empty() {
+        return "0".into();
+    }
+    let mut chunks: Vec<u32> = Vec::new();
+    while !limbs.is_empty() {
+        let mut rem = 0u64;
+        for l in limbs.iter_mut().rev() {
+            let cur = (rem << 32) | *l as u64;
+            *l = (cur / 1_000_000_000) as u32;
+            rem = cur % 1_000_000_000;
+        }
+        chunks.push(rem as u32);
+        while limbs.last() == Some(&0) {
+            limbs.pop();
+        }
+    }
+    let mut out = format!("{}", chunks.pop().unwrap());
+    while let Some(c) = chunks.pop() {
+        out.push_str(&format!("{:09}", c));
+    }
+    out
+}
+
+fn neg(s: &str) -> String {
+    if s == "0" {
+        s.into()
+    } else if let Some(t) = s.strip_prefix('-') {
+        t.into()
+    } else {
+        format!("-{}", s)
+    }
+}
+
+/// 2^k + d for d in {-1, 0, 1} as decimal text
+fn pow2(k: usize, d: i32) -> String {
+    let n = k / 8 + 1;
+    let mut b = vec![0u8; n];
+    b[n - 1 - k / 8] = 1 << (k % 8);
+    match d {
+        1 => {
+            if k == 0 {
+                return "2".into();
+            }
+            b[n - 1] |= 1;
+        }
+        -1 => {
+            // 2^k - 1: k one-bits
+            let mut o = vec![0xFFu8; k / 8];
+            if k % 8 != 0 {
+                o.insert(0, (1u8 << (k % 8)) - 1);
+            }
+            return dec_from_be(&o);
+        }
+        _ => {}
+    }
+    dec_from_be(&b)
+}
+
+/// uniformly random magnitude of exactly `bits` bits (top bit set), decimal text
+fn rand_mag(rng: &mut Rng, bits: usize) -> String {
+    if bits == 0 {
+        return "0".into();
+    }
+    let n = (bits + 7) / 8;
+    let mut b = rng.bytes(n);
+    let top = (bits - 1) % 8;
+    b[0] &= (0xFFu16 >> (7 - top)) as u8;
+    b[0] |= 1 << top;
+    dec_from_be(&b)
+}
+
+/// size distribution of random operands: 1..4096 bits, small sizes more frequent
+fn rand_bits(rng: &mut Rng) -> usize {
+    match rng.below(100) {
+        0..=29 => rng.range(1, 64) as usize,
+        30..=59 => rng.range(65, 512) as usize,
+        60..=84 => rng.range(513, 2048) as usize,
+        85..=94 => rng.range(2049, 4096) as usize,
+        _ => *rng.pick(&[1usize, 8, 31, 32, 33, 63, 64, 65, 128, 256, 1024, 2048, 4095, 4096]),
+    }
+}
+
+fn rand_int(rng: &mut Rng) -> String {
+    let bits = rand_bits(rng);
+    let m = rand_mag(rng, bits);
+    if rng.chance(2, 5) {
+        neg(&m)
+    } else {
+        m
+    }
+}
+
+fn rand_int_max(rng: &mut Rng, maxbits: usize) -> String {
+    let bits = rng.range(1, maxbits as i64) as usize;
+    let m = rand_mag(rng, bits);
+    if rng.chance(2, 5) {
+        neg(&m)
+    } else {
+        m
+    }
+}
+
+pub const CARMICHAEL: &[&str] = &[
+    "561", "1105", "1729", "2465", "2821", "6601", "8911", "41041", "825265", "321197185", "5394826801",
+    "232250619601", "9746347772161",
+    // Chernick numbers (6k+1)(12k+1)(18k+1) whose factors exceed the 2048 trial-division primes of glass_pumpkin
+    "35700127755121", "37686301288201", "57060521336809",
+    "386007699134627392741960852648423145645909879484785758609720275807602184721",
+    "188920918756007600944123125562313043451461075597777194735767964389956961",
+];
+/// strong pseudoprimes to the first k prime bases (psi_1 .. psi_13)
+pub const STRONG_PSP: &[&str] = &[
+    "2047", "1373653", "25326001", "3215031751", "2152302898747", "3474749660383", "341550071728321",
+    "3825123056546413051", "318665857834031151167461", "3317044064679887385961981",
+];
+pub const SAFE_PRIMES: &[&str] = &[
+    "5", "7", "11", "23", "47", "59", "83", "107", "167", "179", "227", "263", "1019", "2879",
+    // 2p+1 for the first three chain starts of the crate's own is_safe_prime test
+    "36176774435806660919", "66752927214043285120774593899", "340282366920938463463374607434335466179",
+];
+/// RFC 2409 group 1 (768 bit) and RFC 3526 group 5 (1536 bit) primes: safe primes (literature)
+pub const SAFE_PRIMES_HEX: &[&str] = &[
+    "FFFFFFFFFFFFFFFFC90FDAA22168C234C4C6628B80DC1CD129024E088A67CC74020BBEA63B139B22514A08798E3404DDEF9519B3CD3A431B302B0A6DF25F14374FE1356D6D51C245E485B576625E7EC6F44C42E9A63A3620FFFFFFFFFFFFFFFF",
+    "FFFFFFFFFFFFFFFFC90FDAA22168C234C4C6628B80DC1CD129024E088A67CC74020BBEA63B139B22514A08798E3404DDEF9519B3CD3A431B302B0A6DF25F14374FE1356D6D51C245E485B576625E7EC6F44C42E9A637ED6B0BFF5CB6F406B7EDEE386BFB5A899FA5AE9F24117C4B1FE649286651ECE45B3DC2007CB8A163BF0598DA48361C55D39A69163FA8FD24CF5F83655D23DCA3AD961C62F356208552BB9ED529077096966D670C354E4ABC9804F1746C08CA237327FFFFFFFFFFFFFFFF",
+];
+/// primes p with (p-1)/2 composite
+pub const NONSAFE_PRIMES: &[&str] = &[
+    "2", "3", "13", "17", "19", "29", "31", "37", "41", "97", "65537", "2147483647", "42885908609", "24473809133", "47055833459",
+    "18088387217903330459", "33376463607021642560387296949", "170141183460469231731687303717167733089",
+];
+/// Mersenne exponents (2^e - 1 prime, not safe) and 2^255 - 19
+pub const MERSENNE: &[usize] = &[61, 89, 107, 127, 521, 607, 1279];
+
+fn hex_to_dec(h: &str) -> String {
+    let mut s = h.to_lowercase();
+    if s.len() % 2 == 1 {
+        s.insert(0, '0');
+    }
+    dec_from_be(&unhex(&s).unwrap_or_default())
+}
+
+fn dec_sub_small(k: usize, d: u8) -> String {
+    // 2^k - d for small d (k >= 8)
+    let mut o = vec![0xFFu8; k / 8];
+    if k % 8 != 0 {
+        o.insert(0, (1u8 << (k % 8)) - 1);
+    }
+    let n = o.len();
+    o[n - 1] -= d - 1;
+    dec_from_be(&o)
+}
+
+pub fn corpus_primes() -> Vec<String> {
+    let mut v: Vec<String> = SAFE_PRIMES.iter().chain(NONSAFE_PRIMES.iter()).map(|s| s.to_string()).collect();
+    v.extend(SAFE_PRIMES_HEX.iter().map(|h| hex_to_dec(h)));
+    v.extend(MERSENNE.iter().map(|e| pow2(*e, -1)));
+    v.push(dec_sub_small(255, 19));
+    v
+}
+
+/// the full edge list (both signs)
+fn edge_values() -> Vec<String> {
+    let mut v: Vec<String> = vec!["0", "1", "2", "3", "4", "5", "7", "10", "15", "16", "255", "256", "257"].into_iter().map(String::from).collect();
+    for k in [7usize, 8, 15, 16, 31, 32, 33, 63, 64, 65, 127, 128, 255, 256, 511, 512, 1023, 1024, 2047, 2048, 4095, 4096] {
+        for d in [-1, 0, 1] {
+            v.push(pow2(k, d));
+        }
+    }
+    v.extend(CARMICHAEL.iter().map(|s| s.to_string()));
+    v.extend(STRONG_PSP.iter().map(|s| s.to_string()));
+    v.extend(corpus_primes());
+    let mut out = Vec::new();
+    for x in v {
+        if x != "0" {
+            out.push(neg(&x));
+        }
+        out.push(x);
+    }
+    out.sort();
+    out.dedup();
+    out
+}
+
+/// a small edge list for the exhaustive crosses (both signs)
+fn edge_small(n: usize) -> Vec<String> {
+    let base: Vec<String> = vec![
+        "0".into(), "1".into(), "-1".into(), "2".into(), "-2".into(), "3".into(), "-3".into(), "5".into(), "-5".into(), "6".into(),
+        "12".into(), "-12".into(), "13".into(), "-13".into(), "255".into(), "256".into(), "-256".into(), "561".into(), "-561".into(),
+        "2047".into(), "23".into(), "-23".into(), "47".into(), "65537".into(),
+        pow2(32, -1), pow2(32, 0), neg(&pow2(32, 0)), pow2(64, -1), pow2(64, 0), pow2(64, 1), neg(&pow2(64, 1)),
+        pow2(127, -1), neg(&pow2(127, -1)), pow2(128, 0), pow2(521, -1), pow2(1024, 1), neg(&pow2(1024, 0)), pow2(4096, -1), neg(&pow2(4096, 0)),
+        "36176774435806660919".into(), "3317044064679887385961981".into(),
+    ];
+    base.into_iter().take(n).collect()
+}
+
+// ------------------------------------------------------------------ case emission
+
+struct Emitter {
+    stream: &'static str,
+    n: usize,
+}
+
+impl Emitter {
+    fn case(&mut self, op: &str, args: Vec<Value>, origin: &str) {
+        let isolated = op == "set_bit" && args.get(1).and_then(|v| v.as_i64()).map(|n| n < 0 || n > 1 << 24).unwrap_or(false);
+        let imp = if isolated { apply_isolated(op, &args) } else { apply(op, &args) };
+        let st = imp["status"].as_str().unwrap_or("?").to_string();
+        emit(&json!({
+            "id": format!("{}/{}", self.stream, self.n),
+            "op": "bn_op",
+            "in": {"backend": backend(), "op": op, "args": args},
+            "impl": imp,
+            "class": {"bn_op": op, "origin": origin, "status": format!("{}:{}", op, st)},
+        }));
+        self.n += 1;
+    }
+}
+
+/// run one operation in a child process (operations that may abort the process)
+fn apply_isolated(op: &str, args: &[Value]) -> Value {
+    use std::io::Write;
+    use std::process::{Command, Stdio};
+    let exe = match std::env::current_exe() {
+        Ok(e) => e,
+        Err(e) => return json!({"status": "harness", "val": Value::Null, "msg": e.to_string()}),
+    };
+    let child = Command::new(exe).arg("exec").stdin(Stdio::piped()).stdout(Stdio::piped()).stderr(Stdio::null()).spawn();
+    let mut child = match child {
+        Ok(c) => c,
+        Err(e) => return json!({"status": "harness", "val": Value::Null, "msg": e.to_string()}),
+    };
+    let line = json!({"id": 0, "op": "bn_op", "in": {"op": op, "args": args}}).to_string();
+    if let Some(mut si) = child.stdin.take() {
+        let _ = si.write_all(line.as_bytes());
+        let _ = si.write_all(b"\n");
+    }
+    match child.wait_with_output() {
+        Ok(o) => {
+            let text = String::from_utf8_lossy(&o.stdout).to_string();
+            if let Some(l) = text.lines().next() {
+                if let Ok(v) = serde_json::from_str::<Value>(l) {
+                    if v["out"]["impl"].is_object() {
+                        return v["out"]["impl"].clone();
+                    }
+                }
+            }
+            // the child died before answering: the call aborted the process (not catchable)
+            json!({"status": "panic", "val": Value::Null, "msg": format!("process abort ({})", o.status)})
+        }
+        Err(e) => json!({"status": "harness", "val": Value::Null, "msg": e.to_string()}),
+    }
+}
+
+const UNARY: &[&str] = &["to_dec", "to_hex", "to_bytes", "sqr", "lshift1", "rshift1", "num_bits", "increment", "decrement", "is_negative"];
+const BINARY: &[&str] = &["add", "sub", "mul", "div", "modulus", "gcd", "cmp", "eq", "inverse", "bitwise_or"];
+const TERNARY: &[&str] = &["mod_mul", "mod_sub", "mod_div", "mod_exp"];
+const WORDOPS: &[&str] = &["add_word", "sub_word", "mul_word", "div_word"];
+const WORDS: &[u64] = &[0, 1, 2, 3, 7, 10, 255, 256, 65535, 65536, 2147483647, 2147483648, 4294967295];
+const BIT_IDX: &[i64] = &[0, 1, 2, 7, 8, 31, 32, 63, 64, 65, 127, 128, 1000, 4095, 4096, 4097];
+const SHIFTS: &[u64] = &[0, 1, 2, 7, 8, 31, 32, 63, 64, 65, 1000, 4096, 5000, 2147483647, 2147483648, 4294967295];
+
+pub const MALFORMED: &[&str] = &[
+    "", "-", "+", "+5", "-5", "5x", " 5", "5 ", "0x10", "0X10", "007", "-0", "+0", "-007", "1_000", "_1", "1_", "--5", "-+5", "+-5", "++5",
+    "x5", "5-", "1__0", "-_1", "12a", "१२", "5\u{0}", "\u{0}5", "-x", "5.0", "5e3", "1,000", "٣", "５", "\t5", "5\n", "0", "00", "-00", "a", "f", "F",
+    "ff", "FF", "fF", "+ff", "-ff", "0xff", "fg", "00ff", "f_f", " ff", "g", "-g", "-F_", "Ff00", "deadBEEF", "z", "1z", "-1Z",
+];
+
+fn text_cases(em: &mut Emitter, thorough: bool, rng: &mut Rng) {
+    for s in MALFORMED {
+        em.case("from_dec", vec![json!(s)], "malformed");
+        em.case("from_hex", vec![json!(s)], "malformed");
+    }
+    // very long numerals and very long garbage
+    let long: String = (0..5000).map(|i| char::from(b'0' + ((i * 7 + 3) % 10) as u8)).collect();
+    em.case("from_dec", vec![json!(long)], "long");
+    em.case("from_dec", vec![json!(format!("-{}", long))], "long");
+    em.case("from_dec", vec![json!(format!("{}x", long))], "long");
+    em.case("from_dec", vec![json!(format!("{}{}", "0".repeat(3000), "17"))], "long");
+    em.case("from_hex", vec![json!(long)], "long");
+    em.case("from_hex", vec![json!("F".repeat(4001))], "long");
+    em.case("from_hex", vec![json!(format!("{}g", "ab".repeat(700)))], "long");
+    let n = if thorough { 20000 } else { 400 };
+    for _ in 0..n {
+        // valid numerals: canonical, with leading zeros, hex in both cases
+        let v = rand_int(rng);
+        match rng.below(6) {
+            0 => em.case("from_dec", vec![json!(v)], "numeral"),
+            1 => {
+                let (sg, m) = if let Some(t) = v.strip_prefix('-') { ("-", t) } else { ("", v.as_str()) };
+                em.case("from_dec", vec![json!(format!("{}{}{}", sg, "0".repeat(rng.range(1, 4) as usize), m))], "numeral-leading-zeros")
+            }
+            2 | 3 => {
+                let nb = rng.range(1, 64) as usize;
+                let b = rng.bytes(nb);
+                let mut h: String = b.iter().map(|x| if rng.0 & 1 == 0 { format!("{:02x}", x) } else { format!("{:02X}", x) }).collect();
+                if rng.chance(1, 3) {
+                    h = h.trim_start_matches('0').to_string();
+                }
+                if rng.chance(1, 3) {
+                    h.insert(0, '-');
+                }
+                em.case("from_hex", vec![json!(h)], "numeral")
+            }
+            _ => {
+                // one mutation of a valid numeral: insert a foreign character somewhere
+                let mut cs: Vec<char> = v.chars().collect();
+                let pos = rng.below(cs.len() as u64 + 1) as usize;
+                let c = *rng.pick(&['+', '-', '_', ' ', 'x', 'a', 'F', 'g', '.', '\u{0}', '/', ':', '@', 'G', '`']);
+                cs.insert(pos, c);
+                let m: String = cs.into_iter().collect();
+                if rng.chance(1, 2) {
+                    em.case("from_dec", vec![json!(m)], "mutated")
+                } else {
+                    em.case("from_hex", vec![json!(m)], "mutated")
+                }
+            }
+        }
+    }
+    // bytes
+    for h in ["", "00", "0000", "01", "ff", "00ff", "0000ff", "ff00", "0100", "80", "7f", "ffffffffffffffff", "010000000000000000"] {
+        em.case("from_bytes", vec![json!(h)], "edge");
+    }
+    for _ in 0..(if thorough { 5000 } else { 150 }) {
+        let hi = if rng.chance(1, 10) { 512 } else { 40 };
+        let nb = rng.range(0, hi) as usize;
+        let mut b = rng.bytes(nb);
+        if rng.chance(1, 3) {
+            let z = rng.range(0, 3) as usize;
+            for x in b.iter_mut().take(z) {
+                *x = 0;
+            }
+        }
+        em.case("from_bytes", vec![json!(hex(&b))], "random");
+    }
+    for n in [0u64, 1, 2, 255, 65536, 2147483647, 2147483648, 4294967295, 4294967296, 4294967301, 1 << 63, u64::MAX] {
+        em.case("from_u32", vec![json!(n)], "edge");
+    }
+}
+
+fn exp_cases(em: &mut Emitter, thorough: bool, rng: &mut Rng) {
+    let big = ["18446744073709551615", "18446744073709551616", "18446744073709551617", "340282366920938463463374607431768211456"];
+    for b in ["0", "1", "-1"] {
+        for e in big.iter() {
+            em.case("exp", vec![json!(b), json!(e)], "edge-huge-exponent");
+            em.case("exp", vec![json!(b), json!(neg(e))], "edge-huge-exponent");
+        }
+    }
+    for b in ["0", "1", "-1", "2", "-2", "3", "10", "-10", "255", "256", "65537", "-4294967296", "18446744073709551616"] {
+        for e in ["0", "1", "2", "3", "5", "16", "31", "32", "33", "64", "100", "-1", "-2", "-3"] {
+            em.case("exp", vec![json!(b), json!(e)], "edge");
+        }
+    }
+    em.case("exp", vec![json!("2"), json!("596")], "edge");
+    em.case("exp", vec![json!("2"), json!("4096")], "edge");
+    em.case("exp", vec![json!("-2"), json!("4097")], "edge");
+    for _ in 0..(if thorough { 10000 } else { 250 }) {
+        let b = rand_int_max(rng, 96);
+        let e = rng.range(0, 160);
+        let e = if rng.chance(1, 12) { -e } else { e };
+        em.case("exp", vec![json!(b), json!(e.to_string())], "random");
+    }
+}
+
+fn gen_bn(thorough: bool, rng: &mut Rng) -> Result<(), String> {
+    let mut em = Emitter { stream: "bn", n: 0 };
+    let edges = edge_values();
+    // ---- unary: every edge value
+    for op in UNARY {
+        for x in &edges {
+            em.case(op, vec![json!(x)], "edge");
+        }
+    }
+    for x in &edges {
+        em.case("set_negative", vec![json!(x), json!(true)], "edge");
+        em.case("set_negative", vec![json!(x), json!(false)], "edge");
+    }
+    // ---- binary: exhaustive cross of the small edge list
+    let e2 = edge_small(if thorough { 41 } else { 24 });
+    for op in BINARY {
+        for x in &e2 {
+            for y in &e2 {
+                em.case(op, vec![json!(x), json!(y)], "edge-cross");
+            }
+        }
+    }
+    // moduli 1, 2, -m against every edge value
+    for m in ["1", "-1", "2", "-2", "0", "3", "-3", "561", "-561", "2047", "36176774435806660919"] {
+        for x in edges.iter().step_by(if thorough { 1 } else { 3 }) {
+            em.case("modulus", vec![json!(x), json!(m)], "edge-moduli");
+            em.case("inverse", vec![json!(x), json!(m)], "edge-moduli");
+        }
+    }
+    // ---- ternary: exhaustive cross of a smaller list
+    let e3 = edge_small(if thorough { 16 } else { 9 });
+    let m3: Vec<String> = vec!["0", "1", "-1", "2", "-2", "5", "-5", "12", "13", "-13", "561", "2047", "18446744073709551616", "36176774435806660919"]
+        .into_iter()
+        .map(String::from)
+        .collect();
+    for op in TERNARY {
+        for x in &e3 {
+            for y in &e3 {
+                for m in &m3 {
+                    em.case(op, vec![json!(x), json!(y), json!(m)], "edge-cross");
+                }
+            }
+        }
+    }
+    // semiprime subgroup test: the crate's own example, small safe moduli, degenerate inputs
+    let sp: &[[&str; 4]] = &[
+        ["4", "9056990664109556783", "7256373851099466689", "262883640898786323684721809348268052893"],
+        ["83826306846185295424745260846198095936", "9056990664109556783", "7256373851099466689", "262883640898786323684721809348268052893"],
+        ["1", "3", "5", "77"], ["4", "3", "5", "77"], ["9", "3", "5", "77"], ["16", "3", "5", "77"], ["23", "3", "5", "77"], ["78", "3", "5", "77"],
+        ["4", "3", "5", "0"], ["1", "3", "5", "0"], ["4", "-3", "5", "77"], ["2", "3", "5", "1"], ["0", "3", "5", "77"], ["-1", "3", "5", "77"],
+        ["76", "3", "5", "77"], ["4", "0", "5", "77"], ["4", "3", "0", "77"], ["4", "11", "23", "1081"], ["2", "11", "23", "1081"], ["4", "3", "5", "-77"],
+    ];
+    for c in sp {
+        em.case("semiprime", c.iter().map(|s| json!(s)).collect(), "edge");
+    }
+    for g in 0..(if thorough { 1081 } else { 120 }) {
+        em.case("semiprime", vec![json!(g.to_string()), json!("11"), json!("23"), json!("1081")], "sweep-1081");
+    }
+    // ---- word operations, bits, shifts
+    let ew = edge_small(if thorough { 41 } else { 20 });
+    for op in WORDOPS {
+        for x in &ew {
+            for w in WORDS {
+                em.case(op, vec![json!(x), json!(w)], "edge-cross");
+            }
+        }
+    }
+    for x in &ew {
+        for i in BIT_IDX {
+            em.case("is_bit_set", vec![json!(x), json!(i)], "edge-cross");
+            em.case("set_bit", vec![json!(x), json!(i)], "edge-cross");
+        }
+        for i in [-1i64, -2147483648, 2147483647] {
+            em.case("is_bit_set", vec![json!(x), json!(i)], "edge-index");
+        }
+        for s in SHIFTS {
+            em.case("rshift", vec![json!(x), json!(s)], "edge-cross");
+        }
+    }
+    // a negative index of set_bit aborts the pure-Rust build: run in a child process
+    em.case("set_bit", vec![json!("5"), json!(-1)], "edge-index");
+    em.case("set_bit", vec![json!("0"), json!(-2147483648i64)], "edge-index");
+    exp_cases(&mut em, thorough, rng);
+    text_cases(&mut em, thorough, rng);
+
+    // ---- random operands of 1..4096 bits, both signs
+    let scale = if thorough { 60 } else { 1 };
+    for _ in 0..(120 * scale) {
+        let x = rand_int(rng);
+        for op in UNARY {
+            em.case(op, vec![json!(x)], "random");
+        }
+        em.case("set_negative", vec![json!(x), json!(rng.chance(1, 2))], "random");
+        // round trips through text and bytes are checked by the comparator from these
+    }
+    for _ in 0..(160 * scale) {
+        let (x, y) = (rand_int(rng), if rng.chance(1, 6) { rand_int_max(rng, 64) } else { rand_int(rng) });
+        for op in ["add", "sub", "mul", "div", "modulus", "gcd", "cmp", "eq"] {
+            em.case(op, vec![json!(x), json!(y)], "random");
+        }
+        if rng.chance(1, 8) {
+            em.case("cmp", vec![json!(x), json!(x)], "random-equal");
+            em.case("eq", vec![json!(x), json!(x)], "random-equal");
+        }
+    }
+    for _ in 0..(400 * scale) {
+        // inverse: modulus of any sign, odd half of the time; operand of any sign and size
+        let mut n = rand_int_max(rng, 1024);
+        if rng.chance(1, 2) {
+            n = make_odd(&n);
+        }
+        if rng.chance(1, 4) {
+            n = rng.pick(&corpus_primes()).clone();
+        }
+        let a = if rng.chance(1, 3) { rand_int(rng) } else { rand_int_max(rng, 1100) };
+        em.case("inverse", vec![json!(a), json!(n)], "random");
+        if rng.chance(1, 2) {
+            let x = rand_int_max(rng, 1100);
+            em.case("mod_div", vec![json!(x), json!(a), json!(n)], "random");
+        }
+    }
+    for _ in 0..(200 * scale) {
+        let n = rand_int(rng);
+        let (x, y) = (rand_int(rng), rand_int(rng));
+        em.case("mod_mul", vec![json!(x), json!(y), json!(n)], "random");
+        em.case("mod_sub", vec![json!(x), json!(y), json!(n)], "random");
+    }
+    for _ in 0..(300 * scale) {
+        // mod_exp: sizes up to 4096 bits but mostly <= 1024 (pure-Rust modpow is slow)
+        let maxb = *rng.pick(&[64usize, 64, 256, 256, 512, 1024, 1024, 2048, 4096]);
+        let mut n = rand_int_max(rng, maxb);
+        if rng.chance(2, 3) {
+            n = make_odd(&n);
+        }
+        if rng.chance(1, 5) {
+            n = rng.pick(&corpus_primes()).clone();
+        }
+        let a = rand_int_max(rng, maxb + 8);
+        let e = rand_int_max(rng, maxb);
+        em.case("mod_exp", vec![json!(a), json!(e), json!(n)], "random");
+    }
+    for _ in 0..(200 * scale) {
+        let x = rand_int(rng);
+        let w = if rng.chance(1, 2) { rng.next() as u32 as u64 } else { *rng.pick(WORDS) };
+        for op in WORDOPS {
+            em.case(op, vec![json!(x), json!(w)], "random");
+        }
+        let i = rng.range(0, 4200);
+        em.case("is_bit_set", vec![json!(x), json!(i)], "random");
+        em.case("set_bit", vec![json!(x), json!(i)], "random");
+        em.case("rshift", vec![json!(x), json!(rng.range(0, 4200))], "random");
+    }
+    for _ in 0..(150 * scale) {
+        let (x, y) = (rand_int_max(rng, 700), rand_int_max(rng, 700));
+        em.case("bitwise_or", vec![json!(x.trim_start_matches('-')), json!(y.trim_start_matches('-'))], "random-nonneg");
+        if rng.chance(1, 5) {
+            em.case("bitwise_or", vec![json!(x), json!(y)], "random");
+        }
+    }
+    eprintln!("bn: {} cases", em.n);
+    Ok(())
+}
+
+fn make_odd(s: &str) -> String {
+    // decimal text: force the last digit odd
+    let mut cs: Vec<char> = s.chars().collect();
+    if let Some(l) = cs.last_mut() {
+        let d = l.to_digit(10).unwrap_or(1);
+        if d % 2 == 0 {
+            *l = char::from_digit(d + 1, 10).unwrap_or('1');
+        }
+    }
+    cs.into_iter().collect()
+}
+
+// ------------------------------------------------------------------ random generators and primality (contracts, checked statistically)
+
+fn rcase(n: &mut usize, kind: &str, mut inp: Value, imp: Value, label: &str) {
+    inp["backend"] = json!(backend());
+    inp["kind"] = json!(kind);
+    // generated primes are handed to the driver (Miller-Rabin test, buffer-construction fixed point)
+    if matches!(kind, "generate_prime" | "generate_safe_prime" | "prime_in_range") {
+        let vals = imp["values"].clone();
+        if inp["cand"].is_object() {
+            inp["cand"]["values"] = vals.clone();
+        }
+        inp["mr"] = vals;
+    }
+    emit(&json!({
+        "id": format!("bn_random/{}", *n),
+        "op": "bn_random",
+        "in": inp,
+        "impl": imp,
+        "class": {"kind": kind, "label": format!("{}:{}", kind, label)},
+    }));
+    *n += 1;
+}
+
+fn verdicts(kind: &str, ns: &[String]) -> Value {
+    let v: Vec<Value> = ns
+        .iter()
+        .map(|s| {
+            let x = match guard(|| BigNumber::from_dec(s)) {
+                Out::Ok(x) => x,
+                _ => return json!({"status": "harness"}),
+            };
+            let o = if kind == "is_prime" { guard(|| x.is_prime()) } else { guard(|| x.is_safe_prime()) };
+            match o {
+                Out::Ok(b) => json!({"status": "ok", "val": b}),
+                Out::Err(_) => json!({"status": "err"}),
+                Out::Panic(_) => json!({"status": "panic"}),
+            }
+        })
+        .collect();
+    json!({"status": "ok", "verdicts": v})
+}
+
+fn draws(n: usize, f: impl Fn() -> Result<BigNumber, ClError>) -> Value {
+    let mut vals = Vec::new();
+    for _ in 0..n {
+        match guard(|| f()?.to_dec()) {
+            Out::Ok(s) => vals.push(json!(s)),
+            Out::Err(m) => return json!({"status": "err", "msg": trunc(m), "values": vals}),
+            Out::Panic(m) => return json!({"status": "panic", "msg": trunc(m), "values": vals}),
+        }
+    }
+    json!({"status": "ok", "values": vals})
+}
+
+fn mode_str() -> &'static str {
+    if cfg!(debug_assertions) {
+        "checked"
+    } else {
+        "wrapping"
+    }
+}
+
+fn gen_bn_random(thorough: bool, rng: &mut Rng) -> Result<(), String> {
+    let mut n = 0usize;
+    // ---- primality verdicts: small numbers exhaustively, the corpus, products, random odd numbers
+    let small_hi = if thorough { 20000 } else { 2000 };
+    let mut lists: Vec<(String, Vec<String>)> = Vec::new();
+    let small: Vec<String> = (-8i64..=small_hi).map(|x| x.to_string()).collect();
+    for (k, ch) in small.chunks(500).enumerate() {
+        lists.push((format!("small-{}", k), ch.to_vec()));
+    }
+    lists.push(("carmichael".into(), CARMICHAEL.iter().map(|s| s.to_string()).collect()));
+    lists.push(("strong-pseudoprimes".into(), STRONG_PSP.iter().map(|s| s.to_string()).collect()));
+    let cp = corpus_primes();
+    lists.push(("corpus-primes".into(), cp.clone()));
+    lists.push(("corpus-primes-negated".into(), cp.iter().take(12).map(|s| neg(s)).collect()));
+    // neighbours of the corpus primes and 2p+1 / (p-1)/2 relatives are produced with the library's
+    // own add_word/lshift1 only to build operands (their value is re-read as decimal text)
+    let mut rel = Vec::new();
+    for p in cp.iter() {
+        if let Ok(x) = BigNumber::from_dec(p) {
+            if let Ok(y) = x.lshift1().and_then(|y| y.increment()).and_then(|y| y.to_dec()) {
+                rel.push(y);
+            }
+            if let Ok(y) = x.add(&BigNumber::from_u32(2).unwrap()).and_then(|y| y.to_dec()) {
+                rel.push(y);
+            }
+        }
+    }
+    lists.push(("corpus-relatives".into(), rel));
+    let mut prods = Vec::new();
+    for i in 0..cp.len() {
+        let j = (i * 7 + 3) % cp.len();
+        if let (Ok(a), Ok(b)) = (BigNumber::from_dec(&cp[i]), BigNumber::from_dec(&cp[j])) {
+            if let Ok(s) = a.mul(&b).and_then(|m| m.to_dec()) {
+                prods.push(s);
+            }
+        }
+    }
+    lists.push(("corpus-products".into(), prods));
+    let mut rnd = Vec::new();
+    for _ in 0..(if thorough { 3000 } else { 150 }) {
+        let bits = *rng.pick(&[16usize, 31, 32, 33, 63, 64, 65, 128, 256, 512]);
+        rnd.push(make_odd(&rand_mag(rng, bits)));
+    }
+    lists.push(("random-odd".into(), rnd));
+    for (label, l) in &lists {
+        rcase(&mut n, "is_prime", json!({"mr": l}), verdicts("is_prime", l), label);
+        rcase(&mut n, "is_safe_prime", json!({"mr": l}), verdicts("is_safe_prime", l), label);
+    }
+    // ---- rand(size): range and top-bit reachability
+    let nd = if thorough { 4096 } else { 512 };
+    for size in [0usize, 1, 2, 3, 7, 8, 9, 31, 32, 33, 63, 64, 65, 80, 128, 256, 592, 1024, 2128, 2724, 3060] {
+        rcase(&mut n, "rand", json!({"size": size, "draws": nd}), draws(nd, || BigNumber::rand(size)), &size.to_string());
+    }
+    // ---- rand_range(bound)
+    let bounds: Vec<String> = vec![
+        "1".into(), "2".into(), "3".into(), "5".into(), "8".into(), "255".into(), "256".into(), "257".into(), pow2(64, 0), pow2(64, 1),
+        "13835058055282163712".into(), pow2(127, -1), pow2(1024, 1), "262883640898786323684721809348268052893".into(),
+    ];
+    for b in &bounds {
+        let x = BigNumber::from_dec(b).map_err(|e| e.to_string())?;
+        rcase(&mut n, "rand_range", json!({"bound": b, "draws": nd}), draws(nd, || x.rand_range()), "nonempty");
+    }
+    for b in ["0", "-1", "-5", "-18446744073709551616"] {
+        let x = BigNumber::from_dec(b).map_err(|e| e.to_string())?;
+        rcase(&mut n, "rand_range", json!({"bound": b, "draws": 4, "expect": "err"}), draws(4, || x.rand_range()), "empty");
+    }
+    // ---- generate_prime / generate_safe_prime
+    let psizes: &[usize] = if thorough { &[2, 3, 8, 16, 32, 64, 127, 128, 129, 256, 512, 1024] } else { &[2, 3, 8, 16, 32, 64, 127, 128, 129, 256] };
+    for size in psizes {
+        let k = if *size <= 256 { 6 } else { 2 };
+        rcase(&mut n, "generate_prime", json!({"args": {"size": size}}), draws(k, || BigNumber::generate_prime(*size)), &size.to_string());
+    }
+    let ssizes: &[usize] = if thorough { &[16, 64, 128, 160, 256, 512] } else { &[16, 64, 128, 160] };
+    for size in ssizes {
+        rcase(&mut n, "generate_safe_prime", json!({"args": {"size": size}}), draws(2, || BigNumber::generate_safe_prime(*size)), &size.to_string());
+    }
+    // ---- generate_prime_in_range(size, range): bounds, oddness, primality, top bit of the range
+    let pairs: &[(usize, usize)] = &[(596, 119), (592, 100), (16, 9), (15, 9), (10, 10), (9, 4), (2, 2), (7, 7), (8, 3), (17, 15), (64, 16), (592, 96), (24, 8), (16, 16)];
+    for (size, range) in pairs {
+        let k = if *size > 100 { if thorough { 64 } else { 24 } } else { if thorough { 256 } else { 48 } };
+        rcase(
+            &mut n,
+            "prime_in_range",
+            json!({"args": {"size": size, "range": range, "mode": mode_str()}, "cand": {"size": size, "range": range, "mode": mode_str()}}),
+            draws(k, || BigNumber::generate_prime_in_range(*size, *range)),
+            &format!("{}/{}", size, range),
+        );
+    }
+    // ---- random_qr(n) for n = p*q with known factors (Euler criterion in the comparator)
+    for (p, q, nn) in [
+        ("23", "47", "1081"),
+        ("167", "179", "29893"),
+        ("1019", "2879", "2933701"),
+        ("36176774435806660919", "66752927214043285120774593899", "2414905590752263867753074482044153231971419133181"),
+    ] {
+        let x = BigNumber::from_dec(nn).map_err(|e| e.to_string())?;
+        let k = if thorough { 1024 } else { 96 };
+        rcase(&mut n, "random_qr", json!({"args": {"p": p, "q": q}}), draws(k, || BigNumber::random_qr(&x)), nn);
+    }
+    eprintln!("bn_random: {} cases", n);
+    Ok(())
+}
+
 /// streams of this module
 pub fn gen(stream: &str, thorough: bool, rng: &mut Rng) -> Option<Result<(), String>> {
-    let _ = (thorough, rng);
     match stream {
+        "bn" => Some(gen_bn(thorough, rng)),
+        "bn_random" => Some(gen_bn_random(thorough, rng)),
         _ => None,
     }
 }
